@@ -324,7 +324,16 @@ DoDonate(s, who, to, d, amt) ==
 DtOf(e) == IF e.amt > 0 THEN e.amt ELSE 1
 DoEndBlock(s, dt) == Done([s EXCEPT !.now = s.now + dt], 0, EmptyF, "")
 
+(* every registered pool names an escrow account and a liquidity denom of the
+   tracked universe (always true for the real registry; a trace that breaks it
+   is reported through the clauses instead of a TLC evaluation error) *)
+WellFormed(s) ==
+  \A p \in DOMAIN s.pools :
+    /\ s.pools[p].esc \in DOMAIN s.bal /\ s.pools[p].lpt \in DOMAIN s.supply
+    /\ p \in DOMAIN s.bal[s.pools[p].esc] /\ s.std \in DOMAIN s.bal[s.pools[p].esc]
+
 Apply(s, e) ==
+  IF ~WellFormed(s) THEN Fail(s, "malformed_registry") ELSE
   CASE e.name = "AddLiquidity" -> DoAddLiquidity(s, e.who, e.denom, e.amt, e.amt2, e.min1, e.deadline)
     [] e.name = "RemoveLiquidity" -> DoRemoveLiquidity(s, e.who, e.denom, e.amt, e.min1, e.min2, e.deadline)
     [] e.name = "AddUnilateral" -> DoAddUnilateral(s, e.who, e.denom, e.tok, e.amt, e.min1, e.deadline)
@@ -357,14 +366,16 @@ PoolL(t, p) == t.supply[t.pools[p].lpt]
 (* C01: reserves product per squared share supply never falls — every event,
    including donations, block ends and rejected messages *)
 C01_ShareValue(s, e, t) ==
-  \A p \in (DOMAIN s.pools) \cap (DOMAIN t.pools) :
-    (PoolL(s, p) > 0 /\ PoolL(t, p) > 0) =>
-      PoolS(t, p) * PoolT(t, p) * PoolL(s, p) * PoolL(s, p)
-        >= PoolS(s, p) * PoolT(s, p) * PoolL(t, p) * PoolL(t, p)
+  /\ WellFormed(s) /\ WellFormed(t)
+  /\ \A p \in (DOMAIN s.pools) \cap (DOMAIN t.pools) :
+       (PoolL(s, p) > 0 /\ PoolL(t, p) > 0) =>
+         PoolS(t, p) * PoolT(t, p) * PoolL(s, p) * PoolL(s, p)
+           >= PoolS(s, p) * PoolT(s, p) * PoolL(t, p) * PoolL(t, p)
 
 (* swap legs, reconstructed from the pools' balance deltas *)
 SwapOK(s, e) == e.name = "Swap" /\ e.ok
 SwapKnown(s, e) ==
+  /\ WellFormed(s)
   /\ e.inDenom # e.outDenom
   /\ \A d \in {e.inDenom, e.outDenom} \ {s.std} : d \in DOMAIN s.pools
 Leg(s, t, p, inD, outD) ==
@@ -441,6 +452,7 @@ Cells(s, e, t) ==
 
 MsgOK(s, e, t) ==
   /\ e.name \in CsMsgs /\ e.ok
+  /\ WellFormed(s) /\ WellFormed(t)
   /\ IF e.name = "Swap" THEN SwapKnown(s, e) ELSE LiqPool(s, e, t) \in DOMAIN t.pools
 
 FrameOver(s, t, cells) ==
@@ -585,8 +597,11 @@ Next == AddLiquidity \/ RemoveLiquidity \/ AddUnilateral \/ RemoveUnilateral \/ 
 
 Spec == Init /\ [][Next]_vars
 
-(* bounded-depth exploration for the wide two-pool universe *)
-DepthConstraint == TLCGet("level") <= MaxSteps
+(* bounded-depth exploration for the wide two-pool universe: every behaviour
+   of at most MaxSteps events (the event count is part of ViewDepth, so the
+   bound is exact and independent of the number of workers) *)
+NextBounded == gh.steps < MaxSteps /\ Next
+SpecBounded == Init /\ [][NextBounded]_vars
 
 (* Generator: TLC as a source of behaviours to replay on the real code.  In
    simulation mode every step enumerates all successors, so the dimensions that
@@ -640,4 +655,5 @@ Act_Rejected_NoEffect == [][Rejected_NoEffect(st, ev', st')]_vars
 
 (* the absolute time never matters (deadlines are chosen relative to it) *)
 View == [st EXCEPT !.now = 0]
+ViewDepth == <<[st EXCEPT !.now = 0], gh.steps>>
 =============================================================================
